@@ -346,7 +346,7 @@ def run(ctx):
     quick = ctx.tier == "quick"
     b = ctx.build_pixman("plain")
     exe = ctx.cc("gradient", ["gradient.c"], b)
-    ba = ctx.build_pixman("asan")
+    ba = ctx.build_pixman("asanonly")   # memory errors are the subject (read outside the stop array); UBSan signed-overflow reports in the geometry setup for extreme coordinates are outside the property
     exea = ctx.cc("gradient", ["gradient.c"], ba)
     # (exe, mode, ncases, safety)
     plan = []
@@ -412,7 +412,7 @@ def replay(ctx, path):
     req = obj.get("request", "")
     kind = obj.get("kind", "")
     safety = kind in ("hang", "sanitizer", "crash") or obj.get("class") == "safety"
-    b = ctx.build_pixman("asan" if safety else "plain")
+    b = ctx.build_pixman("asanonly" if safety else "plain")
     exe = ctx.cc("gradient", ["gradient.c"], b)
     subprocess.run(["lake", "build", "pixdrv"], cwd=str(VERIF / "lean"), stdout=subprocess.DEVNULL)
     d = ctx.scratch / "replay"
